@@ -71,6 +71,12 @@ type Config struct {
 	StepHook  func()                    // called at every scheduling point by the thread that holds the baton
 	ExecHook  func(thread, kind string) // called when a thread has been scheduled and is about to perform its operation
 	ExitHook  func(name string)
+	// PostUnlockPoints makes the release of a Mutex / RWMutex a scheduling point of its own, placed right AFTER the
+	// release: a thread waiting for the lock may then run before the releasing thread's next (unsynchronised) statement.
+	// Without it a critical section that was narrowed ("update under the lock, write the file after it") is never
+	// interleaved with another holder of the lock, because the releasing thread runs on to its next synchronisation
+	// operation.
+	PostUnlockPoints bool
 }
 
 type Result struct {
@@ -1107,6 +1113,9 @@ func (m *Mutex) Unlock() {
 		panic("sync: unlock of unlocked mutex") // a fatal error in production
 	}
 	m.locked = false
+	if s.cfg.PostUnlockPoints && !s.aborting {
+		s.point("after unlock", always)
+	}
 }
 
 // RWMutex models Go's writer preference: a Lock call first announces itself (from then on new RLock calls wait) and
@@ -1142,6 +1151,9 @@ func (m *RWMutex) Unlock() {
 		panic("sync: Unlock of unlocked RWMutex")
 	}
 	m.w = false
+	if s.cfg.PostUnlockPoints && !s.aborting {
+		s.point("after rw.unlock", always)
+	}
 }
 
 func (m *RWMutex) RLock() {
@@ -1165,6 +1177,9 @@ func (m *RWMutex) RUnlock() {
 		panic("sync: RUnlock of unlocked RWMutex")
 	}
 	m.r--
+	if s.cfg.PostUnlockPoints && !s.aborting {
+		s.point("after rw.runlock", always)
+	}
 }
 
 func (m *RWMutex) TryLock() bool {
